@@ -172,13 +172,29 @@ T_End ==
   /\ UNCHANGED <<cfg, now, provVars, schedVars, startVars, ctxVars, instVars, cntVars,
                  runRes, provCh, aggCh, startCh, aw, ghostVars, tokT, tokR, sparts, nlo, explicit, sidOf>>
 
+\* A high-contention run (driver: plRunHot): 8 instances race through one shared finite profile whose tokens are all
+\* due at once, with mocks that do nothing on the hot path.  Only the totals are recorded; they are a complete run of
+\* its own and answer to Pool's end-of-run statements for the configuration [once(n), t tokens shared, unbounded ammo,
+\* no discard]: Accounting, ReleasedAll, UnfiredBound, CountersEnd.
+T_Hot ==
+  /\ Ev.ev = "hot" /\ (~Running \/ l = 1)
+  /\ LET expected == IF Ev.created = 0 THEN 0 ELSE Ev.t          \* Tokens / ExpectedShots of Pool.tla, a = -1
+         unfired  == Ev.acquired - Ev.fired IN
+     bad' = bad \cup Flag(Ev.err = "", "RunReturnedError")
+                \cup Flag(Ev.fired = expected, "HotAccounting")
+                \cup Flag(Ev.request = Ev.fired /\ Ev.response = Ev.fired, "MetricsRequestResponse")
+                \cup Flag(Ev.released = Ev.acquired, "HotReleasedAll")
+                \cup Flag(unfired >= 0 /\ unfired <= Max(Ev.created - 1, 0), "HotUnfiredBound")
+                \cup Flag(Ev.inst_start = Ev.created /\ Ev.inst_finish = Ev.created /\ Ev.created <= Ev.n, "MetricsInstances")
+  /\ UNCHANGED <<vars, tokT, tokR, sparts, nlo, explicit, sidOf>>
+
 TNext == /\ l <= Len(Trace)
          /\ l' = l + 1
          /\ \/ T_Conf
             \/ T_SNext
             \/ T_Bind
             \/ T_Left \/ T_Acq \/ T_Next \/ T_ShootB \/ T_ShootE \/ T_Discard \/ T_Rep \/ T_Rel \/ T_Close
-            \/ T_End
+            \/ T_End \/ T_Hot
 
 \* every recorded entry is a step of the specification
 Accepted    == l <= Len(Trace) => ENABLED TNext
